@@ -411,6 +411,7 @@ package jsonpatch
 //@   invariant arrays-untouched: forall a *partialArray {a.nodes} :: old(allocated(a) && a.nodes != nil) ==> a.nodes == old(a.nodes)
 
 //@ func (Patch).add
+//@   callees[C01,C08] Path, ensurePathExists, findObject, value, add, UnmarshalValid
 //@   requires args: doc != nil && options != nil && conOK(*doc)
 //@   requires op: opOK(op) && validOp(op) && opKind(op) == "add"
 //@   ensures[C04] container: err == nil ==> conOK(*doc)
@@ -426,6 +427,7 @@ package jsonpatch
 //@   ensures[C01] value-is-patch-value: reached(findObject#1) && con != nil ==> v != nil && v.raw != nil && (op["value"] != nil ==> v.raw == op["value"]) && (op["value"] == nil ==> kind(val(*v.raw)) == KNull)
 
 //@ func (Patch).remove
+//@   callees[C01,C08] Path, findObject, remove
 //@   requires args: doc != nil && options != nil && conOK(*doc)
 //@   requires op: opOK(op) && validOp(op)
 //@   ensures[C04] container: conOK(*doc) && *doc == old(*doc)
@@ -442,6 +444,7 @@ package jsonpatch
 //@   ensures[C13] array-element-absent: reached(findObject#1) && con != nil && isAry(con) && !idxRefOK(key, at(findObject#1, len(aryOf(con).nodes)), neg) ==> aryOf(con).nodes == at(findObject#1, aryOf(con).nodes) && (err == nil ==> allow && atoiOK(key))
 
 //@ func (Patch).replace
+//@   callees[C01,C08] Path, value, tryDoc, tryAry, findObject, get, set
 //@   requires args: doc != nil && options != nil && conOK(*doc)
 //@   requires op: opOK(op) && validOp(op) && opKind(op) == "replace"
 //@   ensures[C04] container: err == nil ==> conOK(*doc)
@@ -457,6 +460,7 @@ package jsonpatch
 //@   ensures[C01] value-is-patch-value: reached(value#2) ==> v != nil && v.raw != nil && (op["value"] != nil ==> v.raw == op["value"]) && (op["value"] == nil ==> kind(val(*v.raw)) == KNull)
 
 //@ func (Patch).move
+//@   callees[C01,C08] From, findObject, get, remove, Path, add
 //@   requires args: doc != nil && options != nil && conOK(*doc)
 //@   requires op: opOK(op) && validOp(op) && opKind(op) == "move"
 //@   ensures[C04] container: conOK(*doc) && *doc == old(*doc)
@@ -475,6 +479,7 @@ package jsonpatch
 //@   ensures[C01] array-destination: reached(findObject#2) && dst != nil && isAry(dst) && err == nil && key != "" ==> aryOf(dst).nodes[idxAddVal(dstKey, at(findObject#2, len(aryOf(dst).nodes)))] == at(findObject#1, conAt(con, key))
 
 //@ func (Patch).test
+//@   callees[C01,C08] Path, value, equal, findObject, get, isNull
 //@   requires args: doc != nil && options != nil && conOK(*doc)
 //@   callsite[C15] equal#1 whole-document-compared-with-the-call-options: arg_options == options
 //@   callsite[C15] equal#2 value-compared-with-the-call-options: arg_options == options
@@ -492,6 +497,7 @@ package jsonpatch
 //@   ensures[C08] bad-index-is-not-test-failed: reached(findObject#1) && con != nil && isAry(con) && key != "" && !at(findObject#1, conHas(con, key, neg)) ==> err != nil && !isTestFailed(err)
 
 //@ func (Patch).copy
+//@   callees[C01,C08] From, findObject, get, Path, deepCopy, NewAccumulatedCopySizeError, add
 //@   callsite[C01] deepCopy#1 whole-document-source-is-the-current-document: from == "" ==> arg_src != nil && ((isDoc(*doc) && arg_src.which == eDoc && arg_src.doc == docOf(*doc)) || (isAry(*doc) && arg_src.which == eAry && arg_src.ary == aryOf(*doc)))
 //@   requires args: doc != nil && options != nil && accumulatedCopySize != nil && conOK(*doc)
 //@   requires op: opOK(op) && validOp(op) && opKind(op) == "copy"
